@@ -111,6 +111,7 @@ RULES = {
     'R9': 'in constructors: assert!(c, msg) -> if !(c) { ctor_reject(); }  (a constructor that panics has not accepted its arguments; ctor_reject() never returns)',
     'R10': 'for [&]v in Q.iter() { B }  ->  for r10_i in 0..Q.len() { let v = [&]Q[r10_i]; B }',
     'R11': 'for x in (A..B).rev() { S }  ->  for r11_k in A..B { let x = B - 1 - (r11_k - A); S }',
+    'R12': 'a private helper method without a contract and without `return` is inlined at its call sites: f(a, b) -> { let r12_0 = (a); let r12_1 = (b); let p = r12_0; let q = r12_1; BODY } (modular verification cannot see through an uncontracted call)',
     'R6': 'Vec::last().copied() -> same call on a shim helper vec_last(&v) (contract: last element or None)',
 }
 
@@ -477,6 +478,53 @@ def last_stmt_start(body):
         last = start
     return last
 
+def split_args(a):
+    out, depth, cur = [], 0, ''
+    for ch in a:
+        if ch in '([{': depth += 1
+        elif ch in ')]}': depth -= 1
+        if ch == ',' and depth == 0: out.append(cur.strip()); cur = ''
+        else: cur += ch
+    if cur.strip(): out.append(cur.strip())
+    return out
+
+def collect_helpers(items, vc):
+    """R12: private helper methods without a contract of their own and without `return`: (params, body) by name"""
+    helpers = {}
+    for header, body in items:
+        h = re.sub(r'#\[[^\]]*\]\s*', '', header).strip()
+        if re.match(r'fn\s', h):                                     # private free function
+            cand = [(header, body)]
+        elif not h.startswith('impl') or re.search(r'\bView for\b', h): continue
+        else: cand = top_items(body)
+        for fh, fb in cand:
+            m = re.search(r'^(?:#\[[^\]]*\]\s*)*(pub\s+)?fn\s+(\w+)\s*(?:<[^>]*>)?\s*\(([^)]*)\)', fh.strip(), re.S)
+            if not m or m.group(1): continue                        # public functions keep their own contract
+            name = m.group(2)
+            if ('fn ' + name) in vc.sec or re.search(r'\breturn\b', fb): continue
+            params = [x.strip() for x in split_args(m.group(3))]
+            has_self = bool(params) and re.match(r'&?\s*(mut\s+)?self$', params[0])
+            pnames = [re.match(r'(?:mut\s+)?(\w+)\s*:', x).group(1) for x in params[1 if has_self else 0:]]
+            helpers[name] = (has_self, pnames, fb)
+    return helpers
+
+def inline_helpers(body, helpers, applied):
+    for _ in range(4):
+        changed = False
+        for name, (has_self, pnames, hb) in helpers.items():
+            pat = re.compile((r'\bself\s*\.\s*' if has_self else r'\b(?:Self::)?') + name + r'\s*\(')
+            m = pat.search(body)
+            if not m: continue
+            op = m.end() - 1
+            cl = match_close(body, op, '(', ')')
+            args = split_args(body[op + 1:cl])
+            if len(args) != len(pnames): raise ExtractError('R12: arity mismatch inlining %s' % name)
+            binds = ''.join('let r12_%d = (%s); ' % (i, a) for i, a in enumerate(args)) + ''.join('let %s = r12_%d; ' % (p, i) for i, p in enumerate(pnames))
+            body = body[:m.start()] + '{ ' + binds + hb.strip('\n') + ' }' + body[cl + 1:]
+            applied.add('R12'); changed = True
+        if not changed: break
+    return body
+
 def sha(s):
     return hashlib.sha256(s.encode()).hexdigest()[:16]
 
@@ -502,6 +550,7 @@ def process_file(em, path, report):
     if pre: em.add(pre)
     fns = []
     struct_name = None
+    helpers = collect_helpers(top_items(s), vc)
     for header, body in top_items(s):
         h = re.sub(r'#\[[^\]]*\]\s*', '', header).strip()
         if h.startswith('pub struct'):
@@ -524,7 +573,11 @@ def process_file(em, path, report):
                 em.add(sp)
             for fh, fb in top_items(body):
                 ap = set()
-                fb2 = rewrite_body(fb, ap)
+                hm = re.search(r'\bfn\s+(\w+)', fh)
+                if hm and hm.group(1) in helpers and not is_trait:
+                    applied.add('R12')
+                    continue                                   # inlined at its call sites (R12)
+                fb2 = rewrite_body(inline_helpers(fb, helpers, ap), ap)
                 if not is_trait and re.search(r'\bfn (new\w*|with_\w+)\b', fh):
                     fb2, k9 = re.subn(r'\bassert!\(([^,;]+), "[^"]*"\);', r'if !(\1) { ctor_reject(); }', fb2)
                     if k9: ap.add('R9')
@@ -542,7 +595,11 @@ def process_file(em, path, report):
             em.add('}')
         elif re.match(r'(pub )?fn ', h):
             ap = set()
-            fb2 = rewrite_body(body, ap)
+            hm = re.search(r'\bfn\s+(\w+)', h)
+            if hm and hm.group(1) in helpers:
+                applied.add('R12')
+                continue
+            fb2 = rewrite_body(inline_helpers(body, helpers, ap), ap)
             for pat in UNSUPPORTED:
                 if re.search(pat, fb2):
                     raise ExtractError('unsupported construct %s in %s::%s' % (pat, stem, h.strip().split('(')[0]))
